@@ -43,6 +43,13 @@ def decorate(rng, src):
 def cases(rng, tier):
     n = {"quick": 60, "search": 150, "thorough": 400}[tier]
     out = []
+    # preprocessor-style variants of one source: same length, same first and last lines, generated one after the other
+    # (the driver hands consecutive cases to the same worker thread): every SOURCE must be ITS input
+    head = W.random_program(rng).render()
+    tail = "\n".join("// trailing documentation line %d, identical in every variant" % k for k in range(6)) + "\n"
+    for k in range(8):
+        out.append({"wgsl": head + "const MODE: u32 = %du;\n" % (k + 1) + tail, "family": "same_length_variants",
+                    "opts": {"rustfmt": False}, "include": None})
     for i in range(n):
         base = sink.sink(rng, n_consts=2)["wgsl"] if i % 2 else W.random_program(rng).render()
         src = decorate(rng, base)
